@@ -43,6 +43,7 @@ import (
 
 	"github.com/gofiber/fiber/v3"
 	"github.com/gofiber/fiber/v3/log"
+	recovermw "github.com/gofiber/fiber/v3/middleware/recover"
 
 	"verifharness/internal/gen"
 )
@@ -107,12 +108,36 @@ func isHost(h string) bool {
 
 var opArity = map[string]int{"vb": 2, "lo": 2, "wi": 3, "in": 0, "rs": 1, "to": 1, "ba": 0, "bq": 0, "sh": 2, "bu": 0, "er": 1, "ob": 0, "sf": 2}
 
-func (a action) valid() bool {
+// extArity: the actions only the extended application (modes 5-7, see newSite) knows. Control flow:
+// nx = return c.Next(), rr = return c.RestartRouting(), pa = c.Path(override), pn = panic (recovered by the
+// recover middleware), ee = the handler fails and the application's ErrorHandler fails as well (fiber
+// answers 500 itself). Response side: ss = SendStream(reader, size), su = SendStream(reader) (chunked),
+// sw = SendStreamWriter, st = Status, ty = Type, ap = Append, va = Vary, li = Links, fm = Format,
+// ck = Cookie, js = JSON, at = Attachment, lc = Location.
+var extArity = map[string]int{"nx": 0, "rr": 0, "pa": 1, "pn": 0, "ee": 0, "ss": 0, "su": 0, "sw": 0, "st": 1, "ty": 1, "ap": 2,
+	"va": 1, "li": 2, "fm": 0, "ck": 2, "js": 1, "at": 1, "lc": 1}
+
+func (a action) valid(ext bool) bool {
 	n, ok := opArity[a.op]
+	if !ok && ext {
+		n, ok = extArity[a.op]
+	}
 	if !ok || len(a.args) != n {
 		return false
 	}
 	switch a.op {
+	case "pa", "lc":
+		return isPath(a.args[0]) || a.args[0] == "/"
+	case "st":
+		return a.args[0] == "201" || a.args[0] == "202" || a.args[0] == "404" || a.args[0] == "418" || a.args[0] == "503"
+	case "ty":
+		return a.args[0] == "json" || a.args[0] == "html" || a.args[0] == "png" || a.args[0] == "txt"
+	case "ap":
+		return (a.args[0] == "X-A" || a.args[0] == "X-B" || a.args[0] == "Vary" || a.args[0] == "Link") && isWord(a.args[1])
+	case "va", "js", "at":
+		return isWord(a.args[0])
+	case "li", "ck":
+		return isWord(a.args[0]) && isWord(a.args[1])
 	case "vb", "lo":
 		return isWord(a.args[0]) && isWord(a.args[1])
 	case "sh":
@@ -199,13 +224,17 @@ func sendFilePath(code string) string {
 	return sfName
 }
 
-func (q request) valid() bool {
+func (q request) valid(ext bool) bool {
 	switch q.method {
 	case "GET", "POST", "PUT", "FOO":
+	case "HEAD":
+		if !ext {
+			return false
+		}
 	default:
 		return false
 	}
-	if !isPath(q.path) || q.bad < 0 || q.bad > 3 || !isHost(q.host) {
+	if !(isPath(q.path) || ext && q.path == "/") || q.bad < 0 || q.bad > 3 || !isHost(q.host) {
 		return false
 	}
 	for _, p := range q.query {
@@ -227,7 +256,7 @@ func (q request) valid() bool {
 	}
 	nob, nsf := 0, 0
 	for _, a := range q.script {
-		if !a.valid() {
+		if !a.valid(ext) {
 			return false
 		}
 		if a.op == "ob" {
@@ -278,7 +307,7 @@ func unhex(s string) (string, bool) {
 	return string(b), err == nil
 }
 
-func decodeRequest(s string) (q request, ok bool) {
+func decodeRequest(s string, ext bool) (q request, ok bool) {
 	f := strings.Split(s, "|")
 	if len(f) != 7 {
 		return q, false
@@ -333,7 +362,7 @@ func decodeRequest(s string) (q request, ok bool) {
 			q.script = append(q.script, act)
 		}
 	}
-	return q, q.valid()
+	return q, q.valid(ext)
 }
 
 func (q request) wire(id int) []byte {
@@ -366,7 +395,7 @@ func (q request) wire(id int) []byte {
 			break
 		}
 	}
-	if q.method != "GET" {
+	if q.method != "GET" && q.method != "HEAD" {
 		b.WriteString("Content-Length: 0\r\n")
 	}
 	b.WriteString("\r\n")
@@ -439,12 +468,29 @@ func errorHandler(c fiber.Ctx, err error) error {
 	c.Redirect().With("eh", "1", 7).Status(307)
 	c.Bind().WithAutoHandling()
 	_ = c.BaseURL()
+	if err == errAbort {
+		// the error page fails as well (after it has planted its state and started a response): the request
+		// handler answers with a bare 500
+		c.Status(503).Set("X-A", "eh")
+		c.Append("Vary", "Eh")
+		return err
+	}
 	return fiber.DefaultErrorHandler(c, err)
 }
 
-func newSite(custom bool) *site {
+var errAbort = fmt.Errorf("abort")
+
+// newSite builds the application under test. ext: the extended application of modes 5-7 - in front of
+// everything the recover middleware, behind the base routes the catch-alls `/+` and `/*`; its handlers
+// know the control-flow and response-side actions of extArity. The extended application is outside the
+// Lean model (the driver reports these cases as outside-model); the oracle (history vs fresh app, modelled
+// vector + full vector + raw reply) is the same.
+func newSite(custom, ext bool) *site {
 	s := &site{scripts: map[int][]action{}, obsBy: map[int]*probeObs{}}
 	s.app = fiber.New(fiber.Config{Views: &viewEngine{}, ErrorHandler: errorHandler})
+	if ext {
+		s.app.Use(recovermw.New(recovermw.Config{EnableStackTrace: false}))
+	}
 	if custom {
 		s.app.NewCtxFunc(func(app *fiber.App) fiber.CustomCtx {
 			return &customCtx{DefaultCtx: *fiber.NewDefaultCtx(app)}
@@ -455,12 +501,20 @@ func newSite(custom bool) *site {
 		return c.Next()
 	})
 	h := s.handle
-	s.app.Add([]string{"GET", "POST"}, "/p/:a/:b", h)
-	s.app.Add([]string{"GET", "POST"}, "/q/:x?", h)
-	s.app.Add([]string{"GET", "POST"}, "/s/*", h)
-	s.app.Add([]string{"GET", "POST"}, "/plain", h)
+	gp, g := []string{"GET", "POST"}, []string{"GET"}
+	if ext {
+		gp, g = []string{"GET", "HEAD", "POST"}, []string{"GET", "HEAD"} // what app.Get registers
+	}
+	s.app.Add(gp, "/p/:a/:b", h)
+	s.app.Add(gp, "/q/:x?", h)
+	s.app.Add(gp, "/s/*", h)
+	s.app.Add(gp, "/plain", h)
 	s.app.Add([]string{"POST"}, "/only-post", h)
-	s.app.Add([]string{"GET"}, "/t", h)
+	s.app.Add(g, "/t", h)
+	if ext {
+		s.app.Add(gp, "/+", h)
+		s.app.Add(gp, "/*", h)
+	}
 	_ = s.app.Handler() // startupProcess: builds the route tree
 	return s
 }
@@ -502,6 +556,69 @@ func (s *site) handle(c fiber.Ctx) error {
 			if err := c.SendFile(sendFilePath(a.args[0]), cfg); err == nil {
 				sent = true
 			}
+		// ---- extended application only (extArity). Control flow happens once per request: a handler
+		// that is entered again (after Next / RestartRouting) skips these actions.
+		case "nx", "rr":
+			if c.Locals("again") == nil {
+				c.Locals("again", "1")
+				if a.op == "nx" {
+					return c.Next()
+				}
+				return c.RestartRouting()
+			}
+		case "pa":
+			if c.Locals("again") == nil {
+				_ = c.Path(a.args[0])
+			}
+		case "pn":
+			if c.Locals("again") == nil {
+				panic("boom")
+			}
+		case "ee":
+			return errAbort
+		case "ss":
+			body := "stream:" + strings.Clone(c.Path())
+			_ = c.SendStream(strings.NewReader(body), len(body))
+			sent = true
+		case "su":
+			_ = c.SendStream(strings.NewReader("chunked:" + strings.Clone(c.Path())))
+			sent = true
+		case "sw":
+			body := "writer:" + strings.Clone(c.Path())
+			_ = c.SendStreamWriter(func(w *bufio.Writer) {
+				_, _ = w.WriteString(body[:3])
+				_ = w.Flush()
+				_, _ = w.WriteString(body[3:])
+			})
+			sent = true
+		case "st":
+			n, _ := strconv.Atoi(a.args[0])
+			c.Status(n)
+		case "ty":
+			c.Type(a.args[0])
+		case "ap":
+			c.Append(a.args[0], a.args[1])
+		case "va":
+			c.Vary(a.args[0])
+		case "li":
+			c.Links("http://h/"+a.args[0], a.args[1])
+		case "fm":
+			if err := c.Format(
+				fiber.ResFmt{MediaType: "text/plain", Handler: func(c fiber.Ctx) error { return c.SendString("plain") }},
+				fiber.ResFmt{MediaType: "application/json", Handler: func(c fiber.Ctx) error { return c.JSON(fiber.Map{"f": 1}) }},
+			); err == nil {
+				sent = true
+			}
+		case "ck":
+			c.Cookie(&fiber.Cookie{Name: a.args[0], Value: a.args[1], Path: "/", HTTPOnly: true})
+		case "js":
+			if err := c.JSON(fiber.Map{"v": a.args[0]}); err == nil {
+				sent = true
+			}
+		case "at":
+			c.Attachment(a.args[0] + ".txt")
+		case "lc":
+			c.Location(a.args[0])
 		}
 	}
 	if errCode != 0 {
@@ -743,11 +860,20 @@ func (r *response) peek(name string) (string, bool) {
 	return "", false
 }
 
-// lastResponse splits the bytes written on a connection into responses (Content-Length framing) and
+// lastResponse splits the bytes written on a connection into responses (Content-Length or chunked
+// framing; heads[i]: response i answers a HEAD request and has no body whatever its headers say) and
 // returns the last one.
-func lastResponse(out []byte) (*response, bool) {
+func lastResponse(out []byte, heads []bool) (*response, bool) {
 	var last *response
-	for len(out) > 0 {
+	for n := 0; len(out) > 0; n++ {
+		// fasthttp ends the reply to a HEAD request whose handler set a body stream of unknown size with an
+		// empty line of its own: skip empty lines in front of a status line
+		for bytes.HasPrefix(out, []byte("\r\n")) {
+			out = out[2:]
+		}
+		if len(out) == 0 {
+			break
+		}
 		i := bytes.Index(out, []byte("\r\n\r\n"))
 		if i < 0 {
 			return nil, false
@@ -766,6 +892,7 @@ func lastResponse(out []byte) (*response, bool) {
 		var kept []string
 		kept = append(kept, lines[0])
 		cl := 0
+		chunked := false
 		for _, l := range lines[1:] {
 			j := strings.IndexByte(l, ':')
 			if j < 0 {
@@ -780,16 +907,41 @@ func lastResponse(out []byte) (*response, bool) {
 					return nil, false
 				}
 			}
+			if strings.EqualFold(k, "Transfer-Encoding") && strings.EqualFold(v, "chunked") {
+				chunked = true
+			}
 			r.headers = append(r.headers, kv{k, v})
 			kept = append(kept, l)
 		}
 		rest := out[i+4:]
-		if cl > len(rest) {
-			return nil, false
+		switch {
+		case n < len(heads) && heads[n]:
+			out = rest
+		case chunked:
+			for {
+				j := bytes.Index(rest, []byte("\r\n"))
+				if j < 0 {
+					return nil, false
+				}
+				sz, err := strconv.ParseInt(strings.TrimSpace(string(rest[:j])), 16, 32)
+				if err != nil || int(sz)+j+4 > len(rest) {
+					return nil, false
+				}
+				r.body = append(r.body, rest[j+2:j+2+int(sz)]...)
+				rest = rest[j+2+int(sz)+2:]
+				if sz == 0 {
+					break
+				}
+			}
+			out = rest
+		default:
+			if cl > len(rest) {
+				return nil, false
+			}
+			r.body = rest[:cl]
+			out = rest[cl:]
 		}
-		r.body = rest[:cl]
 		r.rawHead = []byte(strings.Join(kept, "\r\n"))
-		out = rest[cl:]
 		last = r
 	}
 	return last, last != nil
@@ -800,7 +952,7 @@ const probeID = 999
 // serveSeq serves hist then probe on connections with local port lport (mode 0: one connection per
 // request; mode 1: keep-alive pipelining, a malformed request ends its connection) and returns the
 // bytes of the connection the probe was on.
-func (s *site) serveSeq(mode int, hist []request, probe request, idBase, lport int) []byte {
+func (s *site) serveSeq(mode int, hist []request, probe request, idBase, lport int) ([]byte, []bool) {
 	all := append(append([]request{}, hist...), probe)
 	ids := make([]int, len(all))
 	for i := range all {
@@ -810,16 +962,19 @@ func (s *site) serveSeq(mode int, hist []request, probe request, idBase, lport i
 		}
 	}
 	var out []byte
+	var heads, pending []bool // which responses on the last connection answer HEAD requests
 	if mode == 1 {
 		var buf bytes.Buffer
 		flush := func() {
 			if buf.Len() > 0 {
 				out = s.serveConn(buf.Bytes(), lport)
+				heads, pending = pending, nil
 				buf.Reset()
 			}
 		}
 		for i, q := range all {
 			buf.Write(q.wire(ids[i]))
+			pending = append(pending, q.method == "HEAD" && q.bad == 0)
 			if q.bad != 0 {
 				flush()
 			}
@@ -828,9 +983,10 @@ func (s *site) serveSeq(mode int, hist []request, probe request, idBase, lport i
 	} else {
 		for i, q := range all {
 			out = s.serveConn(q.wire(ids[i]), lport)
+			heads = []bool{q.method == "HEAD" && q.bad == 0}
 		}
 	}
-	return out
+	return out, heads
 }
 
 func (s *site) setScripts(hist []request, probe request, idBase int) {
@@ -845,12 +1001,22 @@ func (s *site) setScripts(hist []request, probe request, idBase int) {
 // (GOMAXPROCS 4) against ONE app, so pooled contexts and Redirect objects travel between them; every
 // worker's probe must observe the same; a deviating worker's observation is the one reported.
 func run(mode int, hist []request, probe request) (string, map[string]string) {
-	s := newSite(mode >= 3)
+	s := newSite(mode == 3 || mode == 4 || mode == 7, mode >= 5)
 	if mode != 2 {
 		s.setScripts(hist, probe, 0)
-		out := s.serveSeq(mode%3, hist, probe, 0, 80)
-		resp, ok := lastResponse(out)
+		connMode := mode % 3 // 0/3: one connection per request, 1/4: keep-alive
+		if mode >= 5 {
+			connMode = 1 // 6/7: keep-alive
+			if mode == 5 {
+				connMode = 0
+			}
+		}
+		out, heads := s.serveSeq(connMode, hist, probe, 0, 80)
+		resp, ok := lastResponse(out, heads)
 		if !ok {
+			if os.Getenv("C05_DEBUG") != "" {
+				fmt.Fprintf(os.Stderr, "unparsed reply (heads %v):\n%q\n", heads, out)
+			}
 			return "noresponse", nil
 		}
 		return s.renderP(resp, 80), s.fullOf(resp, 80)
@@ -861,12 +1027,13 @@ func run(mode int, hist []request, probe request) (string, map[string]string) {
 	}
 	prev := runtime.GOMAXPROCS(workers)
 	outs := make([][]byte, workers)
+	headss := make([][]bool, workers)
 	var wg sync.WaitGroup
 	for w := 0; w < workers; w++ {
 		wg.Add(1)
 		go func(w int) {
 			defer wg.Done()
-			outs[w] = s.serveSeq(w%2, hist, probe, 1000*(w+1), 81+w)
+			outs[w], headss[w] = s.serveSeq(w%2, hist, probe, 1000*(w+1), 81+w)
 		}(w)
 	}
 	wg.Wait()
@@ -874,7 +1041,7 @@ func run(mode int, hist []request, probe request) (string, map[string]string) {
 	var p0 string
 	var f0 map[string]string
 	for w := 0; w < workers; w++ {
-		resp, ok := lastResponse(outs[w])
+		resp, ok := lastResponse(outs[w], headss[w])
 		if !ok {
 			return "noresponse", nil
 		}
@@ -1105,8 +1272,12 @@ func observeCase(mode int, hist []request, probe request) (fresh, diff, impl str
 	pHist, fullHist := run(mode, hist, probe)
 	emptyPools()
 	freshMode := 0
-	if mode >= 3 {
+	if mode == 3 || mode == 4 {
 		freshMode = 3 // the fresh app is of the same kind
+	} else if mode == 7 {
+		freshMode = 7
+	} else if mode >= 5 {
+		freshMode = 5
 	}
 	pFresh, fullFresh := run(freshMode, nil, probe)
 	var d []string
@@ -1148,8 +1319,23 @@ var lkeys = []string{"u", "r", "tmp"}
 var vkeys = []string{"title", "user", "k"}
 var mkeys = []string{"status", "name", "k", "note"}
 
+// extCase: set per case; the requests of an extended case (modes 5-7) use the extended vocabulary
+var extCase bool
+
 func genPath(r *gen.Rand) string {
 	w := func() string { return gen.Pick(r, words) }
+	if extCase && r.Chance(1, 3) {
+		// the catch-alls: `/` only matches `/*` (empty parameter), the others match `/+` first
+		switch r.Intn(4) {
+		case 0:
+			return "/"
+		case 1:
+			return "/" + w()
+		case 2:
+			return "/" + w() + "/" + w() + "/" + w()
+		}
+		return "/zz/" + w()
+	}
 	switch r.Intn(12) {
 	case 0, 1, 2:
 		return "/p/" + w() + "/" + w()
@@ -1293,6 +1479,60 @@ func genScript(r *gen.Rand, probe bool) []action {
 		pos := r.Intn(len(sc) + 1)
 		sc = append(sc[:pos], append([]action{{"sf", []string{string(code), hdr}}}, sc[pos:]...)...)
 	}
+	if extCase {
+		// extended application: response-side helpers anywhere, at most one control-flow action (with an
+		// optional path override in front of it), at most one streamed body
+		for n := r.Intn(4); n > 0; n-- {
+			var a action
+			switch r.Intn(10) {
+			case 0:
+				a = action{"st", []string{gen.Pick(r, []string{"201", "202", "404", "418", "503"})}}
+			case 1:
+				a = action{"ty", []string{gen.Pick(r, []string{"json", "html", "png", "txt"})}}
+			case 2:
+				a = action{"ap", []string{gen.Pick(r, []string{"X-A", "X-B", "Vary", "Link"}), gen.Pick(r, words)}}
+			case 3:
+				a = action{"va", []string{gen.Pick(r, []string{"origin", "accept", "x"})}}
+			case 4:
+				a = action{"li", []string{gen.Pick(r, words), gen.Pick(r, []string{"next", "last"})}}
+			case 5:
+				a = action{"fm", nil}
+			case 6:
+				a = action{"ck", []string{gen.Pick(r, []string{"sid", "k", "theme"}), gen.Pick(r, words)}}
+			case 7:
+				a = action{"js", []string{gen.Pick(r, words)}}
+			case 8:
+				a = action{"at", []string{gen.Pick(r, words)}}
+			case 9:
+				a = action{"lc", []string{gen.Pick(r, []string{"/t", "/plain", "/"})}}
+			}
+			pos := r.Intn(len(sc) + 1)
+			sc = append(sc[:pos], append([]action{a}, sc[pos:]...)...)
+		}
+		if r.Chance(1, 3) {
+			a := action{gen.Pick(r, []string{"ss", "su", "sw"}), nil}
+			pos := r.Intn(len(sc) + 1)
+			sc = append(sc[:pos], append([]action{a}, sc[pos:]...)...)
+		}
+		if r.Chance(1, 2) {
+			var cf []action
+			if r.Chance(1, 2) {
+				cf = append(cf, action{"pa", []string{gen.Pick(r, []string{"/q", "/q/" + gen.Pick(r, words), "/s", "/s/" + gen.Pick(r, words), "/p/" + gen.Pick(r, words) + "/" + gen.Pick(r, words), "/", "/" + gen.Pick(r, words), "/plain", "/t", "/zz/" + gen.Pick(r, words)})}})
+			}
+			switch r.Intn(8) {
+			case 0, 1, 2:
+				cf = append(cf, action{"rr", nil})
+			case 3, 4:
+				cf = append(cf, action{"nx", nil})
+			case 5:
+				cf = append(cf, action{"pn", nil})
+			case 6:
+				cf = append(cf, action{"ee", nil})
+			}
+			pos := r.Intn(len(sc) + 1)
+			sc = append(sc[:pos], append(cf, sc[pos:]...)...)
+		}
+	}
 	if probe {
 		// the probe looks at everything, then (often) redirects / binds so that leftover redirect
 		// state and binder mode become visible in its response
@@ -1320,6 +1560,9 @@ func genRequest(r *gen.Rand, probe bool) request {
 		host: gen.Pick(r, []string{"h.example.com", "h.example.com", "admin.internal", "shop.example.org", "localhost"})}
 	if probe && r.Chance(3, 4) {
 		q.method = gen.Pick(r, []string{"GET", "POST"})
+	}
+	if extCase && r.Chance(1, 4) {
+		q.method = "HEAD" // answered by the GET handlers; its reply reuses what the previous reply left of the body buffer
 	}
 	for i := r.Intn(3); i > 0; i-- {
 		q.query = append(q.query, kv{gen.Pick(r, []string{"n", "name", "tag"}), gen.Pick(r, []string{"1", "42", "abc", "x", "007"})})
@@ -1416,14 +1659,14 @@ func main() {
 	defer os.RemoveAll(filepath.Dir(sfDirA))
 	if o.Replay != "" {
 		for _, f := range gen.ReplayInputs(o.Replay) {
-			if len(f) < 4 || (f[1] != "0" && f[1] != "1" && f[1] != "2" && f[1] != "3" && f[1] != "4") {
+			if len(f) < 4 || len(f[1]) != 1 || f[1][0] < '0' || f[1][0] > '7' {
 				continue
 			}
 			bad := false
 			var hist []request
 			if f[2] != "-" {
 				for _, s := range strings.Split(f[2], ";") {
-					q, ok := decodeRequest(s)
+					q, ok := decodeRequest(s, f[1] >= "5")
 					if !ok {
 						bad = true
 						break
@@ -1431,7 +1674,7 @@ func main() {
 					hist = append(hist, q)
 				}
 			}
-			probe, ok := decodeRequest(f[3])
+			probe, ok := decodeRequest(f[3], f[1] >= "5")
 			if bad || !ok || probe.bad != 0 || len(hist) > 12 {
 				w.Case(f[0], f[1], f[2], f[3], "invalid", "-", "invalid")
 				continue
@@ -1457,6 +1700,7 @@ func main() {
 		r := root.Fork(uint64(i))
 		var hist []request
 		sendFileCase = r.Chance(1, 4)
+		extCase = r.Chance(3, 20)
 		for n := r.Intn(9); n > 0; n-- {
 			hist = append(hist, genRequest(r, false))
 		}
@@ -1466,6 +1710,10 @@ func main() {
 			mode = 2 // concurrent mix
 		} else if r.Chance(1, 5) {
 			mode += 3 // custom context
+		}
+		if extCase {
+			mode = 5 + r.Intn(3) // extended application: one connection per request / keep-alive / keep-alive + custom context
+			w.Count("ext-case")
 		}
 		w.Count(fmt.Sprintf("hist=%d", len(hist)))
 		w.Count("mode=" + strconv.Itoa(mode))
